@@ -67,7 +67,9 @@ func runRace(r *vkit.R, g *vkit.Rand, rounds int) {
 	gw := newGateway(cfgHigh, "gw-race", 1)
 	defer gw.close()
 	gw.cs.setReady(true)
-	gw.cs.setAllocate(func(req *proxyv1alpha1.RateLimitCondition) (*proxyv1alpha1.RateLimitCondition, error) { return allocReply(req), nil })
+	gw.cs.setAllocate(func(req *proxyv1alpha1.RateLimitCondition) (*proxyv1alpha1.RateLimitCondition, error) {
+		return allocReply(req), nil
+	})
 	if p := vkit.Safely(func() { gw.reconcileOnce() }); p != nil {
 		r.Violation("C09/count-maxinflight/panic/reconcile", fmt.Sprintf("reconcile panicked: %v", p), cfgHigh)
 		return
